@@ -340,6 +340,10 @@ func (c *Context) BindValidRequest(request *http.Request, route *MatchedRoute, b
 			}
 			if len(res) == 0 {
 				cons, ok := route.Consumers[ct]
+				if !ok && c.api != nil {
+					// admitted through a wildcard entry of consumes: the route's table holds the literal entries only
+					cons, ok = c.api.ConsumersFor([]string{ct})[ct]
+				}
 				if !ok {
 					res = append(res, errors.New(http.StatusInternalServerError, "no consumer registered for %s", ct))
 				} else {
